@@ -9,37 +9,37 @@ import (
 )
 
 type Clause struct {
-	Kind  string // requires ensures invariant panics
-	Props []string
-	Label string
-	Expr  *Expr
-	Src   string
-	Loop  int
-	Free  bool // assumed, not checked ("free" invariant / requires) — listed as assumption
-	Unfold []string // recursive/opaque definitions to unfold when this clause is checked
-	Local  bool     // loop invariant that is forgotten when the loop is left (keeps later queries small)
-	EntryOnly bool  // proved when the loop is entered and used for the following entry checks only
-	AtExit    bool  // proved (and then assumed) on every edge that leaves the loop
+	Kind      string // requires ensures invariant panics
+	Props     []string
+	Label     string
+	Expr      *Expr
+	Src       string
+	Loop      int
+	Free      bool     // assumed, not checked ("free" invariant / requires) — listed as assumption
+	Unfold    []string // recursive/opaque definitions to unfold when this clause is checked
+	Local     bool     // loop invariant that is forgotten when the loop is left (keeps later queries small)
+	EntryOnly bool     // proved when the loop is entered and used for the following entry checks only
+	AtExit    bool     // proved (and then assumed) on every edge that leaves the loop
 }
 
 type Contract struct {
-	Key        string // RelString of the function, or Iface.method
-	IsIface    bool
-	RecvName   string // interface contracts: name that stands for the receiver
-	ParamNames []string
-	Implements string
-	Requires   []*Clause
-	Ensures    []*Clause
-	Panics     []*Clause
-	Modifies   []*Expr
-	ModSrc     []string
-	Invs       map[int][]*Clause
-	Flags      map[string]bool
-	Unfold     int
+	Key         string // RelString of the function, or Iface.method
+	IsIface     bool
+	RecvName    string // interface contracts: name that stands for the receiver
+	ParamNames  []string
+	Implements  string
+	Requires    []*Clause
+	Ensures     []*Clause
+	Panics      []*Clause
+	Modifies    []*Expr
+	ModSrc      []string
+	Invs        map[int][]*Clause
+	Flags       map[string]bool
+	Unfold      int
 	UnfoldNames []string
 	CutLoops    map[int]bool // loops at whose head everything but the precondition and the invariants is forgotten
-	Line       int
-	Props      []string
+	Line        int
+	Props       []string
 }
 
 type Contracts struct {
@@ -51,15 +51,15 @@ type Contracts struct {
 }
 
 type Construct struct {
-	Name   string // exported Go name e.g. Parens
-	Kind   string // group | token
-	Params string // item | items | none ...
+	Name             string // exported Go name e.g. Parens
+	Kind             string // group | token
+	Params           string // item | items | none ...
 	Open, Close, Sep string
-	Multi  bool
-	GName  string // Group.name
-	TokTyp string
-	TokTxt string
-	Line   int
+	Multi            bool
+	GName            string // Group.name
+	TokTyp           string
+	TokTxt           string
+	Line             int
 }
 
 var labelRe = regexp.MustCompile(`^([A-Za-z0-9_.\-]+):\s`)
